@@ -203,7 +203,8 @@ impl PortfolioRunner {
                 panic = Some(e);
             }
         }
-        assert!(stop_signal.load(Ordering::SeqCst) == panic.is_some());
+        // The stop signal is only ever raised when we were asked to stop on the first failure
+        assert!(!self.stop_on_first_failure || stop_signal.load(Ordering::SeqCst) == panic.is_some());
         if let Some(e) = panic {
             std::panic::resume_unwind(e);
         }
